@@ -154,3 +154,33 @@ def so_dict(addr_bytes, now_utc, lat, lon, pai=1, speed=0, heading=0, tst=None):
 
 def addr_bytes(mid: bytes, st=5, m=0) -> bytes:
     return rc.build_addr(m, st, mid)
+
+
+def secured_station(ether, mid, own_at, known_ats=(), ports=(2001, 2002, 2018, 3000), mib_kwargs=None, zoo=None):
+    """Station with itsGnSecurity ENABLED, trusting the zoo's root and AA, signing with own_at."""
+    from flexstack.geonet.mib import GnSecurity
+    from . import pki
+    z = zoo or pki.Zoo.get()
+    lib, sign, ver = z.station_security(own_at, known_ats)
+    kw = dict(mib_kwargs or {})
+    kw.setdefault("itsGnSecurity", GnSecurity.ENABLED)
+    kw.setdefault("itsGnMaxPacketDataRate", 10**9)
+    st = Station(ether, mid, mib_kwargs=kw, sign_service=sign, verify_service=ver, ports=ports)
+    st.lib, st.sign, st.ver = lib, sign, ver
+    return st
+
+
+def secured_request(profile, payload, *, port=None, area=None, hop_limit=5):
+    """GNDataRequest for profile in cam|vam|denm|other (BTP-B header prepended)."""
+    from flexstack.geonet.service_access_point import (Area, CommonNH, GeoBroadcastHST, GNDataRequest, HeaderType, PacketTransportType, TopoBroadcastHST)
+    from flexstack.security.security_profiles import SecurityProfile
+    prof = {"cam": (SecurityProfile.COOPERATIVE_AWARENESS_MESSAGE, 36, 2001), "vam": (SecurityProfile.VRU_AWARENESS_MESSAGE, 638, 2018),
+            "denm": (SecurityProfile.DECENTRALIZED_ENVIRONMENTAL_NOTIFICATION_MESSAGE, 37, 2002), "other": (SecurityProfile.NO_SECURITY, 999, 3000)}[profile]
+    p = prof[2] if port is None else port
+    data = rc.build_btp(p, 0) + bytes(payload)
+    if profile == "denm":
+        ptt = PacketTransportType(HeaderType.GEOBROADCAST, GeoBroadcastHST.GEOBROADCAST_CIRCLE)
+        return GNDataRequest(upper_protocol_entity=CommonNH.BTP_B, packet_transport_type=ptt, security_profile=prof[0], its_aid=prof[1],
+                             area=area or Area(latitude=413000000, longitude=21000000, a=1000, b=1000, angle=0), data=data, length=len(data), max_hop_limit=hop_limit)
+    ptt = PacketTransportType(HeaderType.TSB, TopoBroadcastHST.SINGLE_HOP)
+    return GNDataRequest(upper_protocol_entity=CommonNH.BTP_B, packet_transport_type=ptt, security_profile=prof[0], its_aid=prof[1], data=data, length=len(data))
